@@ -212,7 +212,7 @@ func reportProperty(e *Engine, o runOpts, res *propResult) int {
 		fmt.Println("NOTE:", n)
 	}
 	seed, _ := strconv.Atoi(os.Getenv("VERIF_SEED"))
-	evPath := filepath.Join(o.verifDir, "evidence", prop+".json")
+	evPath := filepath.Join(o.outDir, "evidence", prop+".json")
 	os.MkdirAll(filepath.Dir(evPath), 0o755)
 	if len(res.engErrs) > 0 {
 		for _, m := range res.engErrs {
@@ -369,7 +369,7 @@ type replayInfo struct {
 }
 
 func writeReplay(e *Engine, o runOpts, prop string, ob *Obligation, prelude string) replayInfo {
-	dir := filepath.Join(o.verifDir, "replays", prop)
+	dir := filepath.Join(o.outDir, "replays", prop)
 	os.MkdirAll(dir, 0o755)
 	path := filepath.Join(dir, mangle(ob.Name)+".json")
 	q := e.Query(ob, prelude)
